@@ -33,7 +33,7 @@ T_C01E = [('Bashlex.Final.' + t, 'Bashlex.Props.Final') for t in ['C01_engine_te
 T_C01E += [('Bashlex.C01.' + t, 'Bashlex.Props.C01Tight') for t in ['C01_partial_tight', 'C01_partial_single_tight', 'C01_partial_split_tight', 'C01_parserRun_tight', 'k_parserRun', 'next8_good', 'parserRun8',
            'f_gatherheredocuments', 'sat_tokeninit_false', 'sat_isassignment_false']] + [('Bashlex.C11.C11_split', 'Bashlex.Props.C01Tight')] + \
           [('Bashlex.C01E.' + t, 'Bashlex.Props.C01Loops') for t in ['split_terminates', 'C01_partial_split_tight', 'C01_nesting_bound', 'C01_partial_split_nofuel']]
-T_ACT = [('Bashlex.ActGen.' + t, 'Bashlex.Props.ActGen') for t in ['actgen_agree', 'actgen_covered', 'partsspan_dup', 'partsspan_discard']]
+T_ACT = [('Bashlex.ActGen.' + t, 'Bashlex.Props.ActGen') for t in ['actgen_agree', 'actgen_covered', 'makeparts_gen', 'parseD_gen', 'driver_pieces', 'partsspan_dup', 'partsspan_discard']]
 reg('C01', 'propchecks.c01', 'proof', [("Bashlex.C11.C01_partial'", 'Bashlex.Props.C11Total'), ('Bashlex.C11.no_init_assert', 'Bashlex.Props.C11Total')] + T_C01E + T_C01 + T1, [ASCII, DEPTH, CORR,
     'Props/C01Tight.lean, Props/C01/Tight*.lean (5100 lines): ALL 14 raise sites of the tokenizer for exceptions outside the contract are proved UNREACHABLE (tokForeignTight = []), for parse, parsesingle and split - C01_partial_tight: 7 from parameters and loop states, 2 local to token(), 2 with a parser-object invariant (the line never ends in a backslash; ids on redirstack are in the store) carried through tokenizer, word expansion, all actions, engine, nested parsers, 2 with the cursor-level facts of C03/C11 (REGEXP/DBLPAREN are never set); kernel-checked STATE witnesses show the state-free formulation false for four of them; what is left in the list: the 3 recorded defects D24/D18/D35 (witnesses) and 3 sites above the tokenizer not excluded (visitnode, _extractcommandsubst, _expandwordinternal). '
     'Props/C01Loops.lean: split_terminates / C01_partial_split_nofuel (the loop of split makes at most |line|+1 iterations: every token pays a unit of the tape; none of the three fuel markers for split), C01_nesting_bound (the nesting marker needs at least 64 opener characters in the input - the property\'s clause about recursion limits); f_gatherheredocuments (that loop never runs out of fuel). Still covered by fuel only: 7 character loops of the tokenizer. '
@@ -212,12 +212,13 @@ T7P = [('Bashlex.Pool.exec_value', QC), ('Bashlex.Pool.exec_pure', QC), ('Bashle
 reg('C19', 'propchecks.c19', 'proof', T7P + [('Bashlex.Props.C20.no_unlisted_shared_write', 'Bashlex.Props.C20')], [ASCII, CORR, 'the theorem is about the abstract interleaving model (atomic queries on one shared store); it cannot exhibit CPython preemption points, the atomicity of defaultdict.__missing__ under the GIL, or free-threaded builds: those are observed under the deterministic scheduler and stress runs'])
 
 C02M = 'Bashlex.Props.C02'
-T_C02 = [('Bashlex.C02.' + t, C02M) for t in ['C02_full_roundtrip', 'C02_simple_roundtrip', 'C02_seq_roundtrip', 'C02_pipeline_roundtrip', 'C02_andor_roundtrip', 'C02_lines_roundtrip', 'C02_oplines_roundtrip',
+T_C02 = [('Bashlex.C02.' + t, C02M) for t in ['C02_full_roundtrip3', 'C02_full_roundtrip2', 'C02_full_roundtrip_of2', 'tot_nextToken_gen', 'elem_step', 'gpe_run', 'C02_full_roundtrip', 'C02_simple_roundtrip', 'C02_seq_roundtrip', 'C02_pipeline_roundtrip', 'C02_andor_roundtrip', 'C02_lines_roundtrip', 'C02_oplines_roundtrip',
          'tot_nextToken_word', 'tot_nextToken_nl', 'tot_nextToken_semi', 'tot_nextToken_bar', 'tot_nextToken_and', 'tot_nextToken_or', 'run_line', 'run_seq', 'run_pipe', 'run_seqO', 'pe_run', 'run_seqE', 'parse_line']]
 reg('C02', 'propchecks.c02', 'proof', T_C02 + T_ACT + (T1[:1] + TLEX), [ASCII, CORR,
-    'Props/C02*.lean (6800 lines): the ROUND TRIP IS A THEOREM for a sub-language, about the real model (real tokenizer, the LR engine on the regenerated tables, real actions, word expansion, the loop of parse): C02_full_roundtrip - for every sequence of newline-separated lines, each a list (; && || in any mix) of pipelines (|) of simple commands made of plain words (first word of each command not reserved), with arbitrary blanks and tabs between words, around operators and at line ends, with or without a final newline, and for all options, parse returns EXACTLY the expected AST (kinds, nesting, operator and pipe nodes, word values, every span) - no exception possible (total-correctness calculus). '
+    'C02_full_roundtrip3 (10400 lines in all) EXTENDS the sub-language below by ASSIGNMENTS (a=b c=d cmd args, assignment-only commands, and x a=b where a=b stays a word: ASSIGNMENT_WORD exactly when the word looks like an assignment and the position accepts one) and REDIRECTIONS > w, < w, >> w after the first item of a command (blanks allowed between operator and word; redirect nodes with their exact fields and spans); the earlier theorem follows formally through an embedding (C02_full_roundtrip_of2). Not covered: a redirection as first item, fd prefixes, & and |&, quoted words. ' +
+    'Props/C02*.lean: the ROUND TRIP IS A THEOREM for a sub-language, about the real model (real tokenizer, the LR engine on the regenerated tables, real actions, word expansion, the loop of parse): C02_full_roundtrip - for every sequence of newline-separated lines, each a list (; && || in any mix) of pipelines (|) of simple commands made of plain words (first word of each command not reserved), with arbitrary blanks and tabs between words, around operators and at line ends, with or without a final newline, and for all options, parse returns EXACTLY the expected AST (kinds, nesting, operator and pipe nodes, word values, every span) - no exception possible (total-correctness calculus). '
     'Outside the theorem and decided per generated case by the Lean oracle Spec/Render.lean (translation-validation strength): quoting, expansions, assignments, redirections, compound commands, comments, continuations, & and |&. The proofs use 180 kernel-decided facts about concrete states of the regenerated tables: a renumbering of the grammar breaks them (then the per-case search decides). '
-    'ActGen: 32 of the 39 semantic action functions are TRANSLATED from parser.py on every run (Gen/Actions.lean) and proved equal to the model (actgen_agree)'])
+    'ActGen: ALL 39 semantic action functions and the helper _makeparts are TRANSLATED from parser.py on every run (Gen/Actions.lean; the generator raises on unknown statement shapes; Gen.untranslated = [p_error]) and proved equal to the model actions as monad computations (actgen_agree: 29 unconditionally, 10 under a decidable slice condition that records where the hand model names another failure site on ill-typed slices); the driver parse()/parsesingle()/_parser.parse/_endfinder is matched against fixed skeletons by the translator (any deviation raises) with its two constants generated (parseD_gen, driver_pieces)'])
 
 C20M = 'Bashlex.Props.C20'
 reg('C20', 'propchecks.c20', 'proof', [('Bashlex.Props.C20.' + t, C20M) for t in ['C20_static', 'no_effect_reachable', 'no_effect_reachable_guarded', 'no_unlisted_shared_write', 'reach_complete', 'closure_sound', 'engine_call_ok', 'yacc_args_ok', 'imports_ok', 'import_effects_listed', 'unresolved_listed', 'shared_objects_known']],
